@@ -220,11 +220,16 @@ def id_record(full_cfg: dict, text: str, ctx: dict, init_data, w, stats: dict) -
     r = harness.run_cli(["inspect", "cfg.yaml"])
     rec["inspect_code"] = r["code"]
     rec["inspect_ids"] = _inspect_ids(r["stdout"])
-    p = harness.make_pipeline(loaded["pipeline"]["nodes"])
+    # each path starts from its OWN load of the text (inspect, construction and run are separate uses of one file)
+    loaded2 = yaml.safe_load(text)
+    p = harness.make_pipeline(loaded2["pipeline"]["nodes"])
     rec["pipeline_ids"] = {"uuids": [n["node_uuid"] for n in p.canonical_spec["nodes"]],
                            "pipeline_id": compute_pipeline_id(p.canonical_spec)}
-    sc = {"nodes": loaded["pipeline"]["nodes"], "context": ctx, "init_data": init_data, "faults": []}
-    rr = harness.run_scenario(sc, w, trace_mode="file", detail="hash", pipeline=p, name=f"idr{len(w.exec_log)}")
+    loaded3 = yaml.safe_load(text)
+    sc = {"nodes": loaded3["pipeline"]["nodes"], "context": ctx, "init_data": init_data, "faults": []}
+    detail = random.Random(len(text) + len(w.exec_log)).choice(harness.DETAILS)     # identities do not depend on the detail level
+    rec["trace_detail"] = detail
+    rr = harness.run_scenario(sc, w, trace_mode="file", detail=detail, name=f"idr{len(w.exec_log)}")
     recs, _ = harness.parse_lines(rr["emissions"])
     st = next((x for x in recs if x.get("record_type") == "pipeline_start"), None)
     if st is None or not rr["outcome"]["ok"]:
@@ -361,6 +366,9 @@ def compare(recs: list[dict]) -> list[dict]:
             a, b = json.loads(r0["payload"]), json.loads(r["payload"])
             d = _first_diff(a, b)
             out.append(oracles.V("payload", f"{tag}:{_field(d)}", f"{where} vs world 0: {d}"))
+        if r.get("trace_ids") is not None and any(r["trace_ids"].get(k) is None for k in ("semantic_id", "config_id", "node_semantic_ids")):
+            out.append(oracles.V("paths", "identities_absent_from_pipeline_start", f"{where}: pipeline_start.meta lacks identities at trace detail "
+                                 f"{r.get('trace_detail')!r}: {r['trace_ids']}"))
         for path in ("pipeline_ids", "trace_ids"):
             if r[path] is None or r0[path] is None:
                 continue
